@@ -336,9 +336,9 @@ func (svr *StrictServerImpl) UpdateLocalTrust(
 	logger := util.LoggerWithCaller(*zerolog.Ctx(ctx))
 	c, err := svr.loadTrustMatrix(ctx, request.Body)
 	if err != nil {
-		return nil, server.HTTPError{
-			Code: 400, Inner: fmt.Errorf("cannot load local trust: %w", err),
-		}
+		var resp openapi.UpdateLocalTrust400JSONResponse
+		resp.Message = fmt.Errorf("cannot load local trust: %w", err).Error()
+		return resp, nil
 	}
 	cDim, err := c.Dim()
 	if err != nil {
